@@ -650,7 +650,9 @@ impl<'a, F: Float, K: 'a + Permutable<F>> SolverState<'a, F, K> {
         }
 
         // swap items until working set is homogeneous
-        for i in 0..self.nactive() {
+        // the number of active variables shrinks inside the loop, re-read it on every iteration
+        let mut i = 0;
+        while i < self.nactive() {
             if self.should_shrunk(i, gmax1, gmax2) {
                 self.nactive -= 1;
                 // only consider items behing this one
@@ -662,6 +664,7 @@ impl<'a, F: Float, K: 'a + Permutable<F>> SolverState<'a, F, K> {
                     self.nactive -= 1;
                 }
             }
+            i += 1;
         }
     }
 
@@ -678,7 +681,9 @@ impl<'a, F: Float, K: 'a + Permutable<F>> SolverState<'a, F, K> {
         }
 
         // swap items until working set is homogeneous
-        for i in 0..self.nactive() {
+        // the number of active variables shrinks inside the loop, re-read it on every iteration
+        let mut i = 0;
+        while i < self.nactive() {
             if self.should_shrunk_nu(i, gmax1, gmax2, gmax3, gmax4) {
                 self.nactive -= 1;
                 // only consider items behing this one
@@ -690,6 +695,7 @@ impl<'a, F: Float, K: 'a + Permutable<F>> SolverState<'a, F, K> {
                     self.nactive -= 1;
                 }
             }
+            i += 1;
         }
     }
 
